@@ -226,6 +226,57 @@ def fixed(rec, pre, k):
     rec.put(pre + "conv_out", s); rec.put(pre + "conv_grad_x", xi._grad); rec.put(pre + "conv_grad_k", k2._grad)
 
 
+def prebuild():
+    """objects constructed BEFORE any manual_seed: a seed set later must still govern everything they draw"""
+    np.random.rand(5)                     # the global generators have been used (state unknown) before the objects are built
+    return {"dropout": nn.Dropout(0.4), "mlp": mlp(), "conv": nn.Sequential(nn.Conv1d(2, 3, 2), nn.ReLU(), nn.Dropout(0.25), nn.Flatten(), nn.Linear(9, 2))}
+
+
+def prebuilt_part(rec, pre, seed, objs):
+    """'build the model once, then manual_seed(s) and run the experiment' - run twice per process with the SAME objects"""
+    sg.manual_seed(seed)
+    x = sg.Tensor((np.arange(24, dtype=np.float32).reshape(4, 6) - 11.0) / 8.0)
+    d = objs["dropout"]; d.train()
+    rec.put(pre + "prebuilt/dropout/train", d(x), True)
+    rec.put(pre + "prebuilt/dropout/train_again", d(x), True)
+    for name, xin, yin in (("mlp", sg.randn(6, 4), sg.randint(0, 3, (6,))), ("conv", sg.randn(5, 2, 4), sg.randint(0, 2, (5,)))):
+        model = objs[name]
+        model.train()
+        # re-initialise the parameters / statistics under the seed, so that the two runs start from the same model
+        def reinit(m):
+            if hasattr(m, "reset_parameters"):
+                m.reset_parameters()
+            if getattr(m, "running_mean", None) is not None:
+                m.running_mean.data = np.zeros_like(m.running_mean.data); m.running_var.data = np.ones_like(m.running_var.data)
+        model.apply(reinit)
+        opt = optim.SGD(model.parameters(), lr=0.05, momentum=0.9)
+        for step in range(2):
+            out = model(xin)
+            loss = nn.CrossEntropyLoss()(out, yin)
+            opt.zero_grad(); loss.backward(); opt.step()
+            rec.put(pre + "prebuilt/%s/loss/%d" % (name, step), loss, True)
+        for i, pp in enumerate(model.parameters()):
+            rec.put(pre + "prebuilt/%s/final/%d" % (name, i), pp, True)
+
+
+def labels_part(rec):
+    """one_hot_encode / split_dataset on STRING labels and mixed negative ints (no randomness): must not depend on the hash seed;
+    direct statement: column j of the encoding is the j-th label in sorted order (np.unique), as documented by the implementation"""
+    from synapgrad.nn.utils.data import one_hot_encode
+    sets = {"strings": ["cat", "dog", "bird", "cat", "emu", "dog", "ant", "bird", "zebra", "yak", "cat", "emu"],
+            "neg_ints": [-3, 7, 0, -3, 12, -1, 7, 0, -100, 5, 5, -1],
+            "long_strings": ["class_%d" % ((i * 7) % 5) for i in range(12)]}
+    for name, y in sets.items():
+        enc = one_hot_encode(y)
+        rec.put("labels/%s/one_hot" % name, enc)
+        ya = np.array(y)
+        want = (ya[:, None] == np.unique(ya)[None, :]).astype(np.asarray(enc).dtype)
+        rec.put("chk/got/one_hot_encode/%s" % name, enc); rec.put("chk/want/one_hot_encode/%s" % name, want)
+        X = np.arange(len(y) * 2, dtype=np.float32).reshape(len(y), 2)
+        tr, te, va = split_dataset(X, np.asarray(enc, dtype=np.float32), test_split=0.25, val_split=0.25, shuffle=False)
+        rec.put("labels/%s/split/train_y" % name, tr[1]); rec.put("labels/%s/split/test_y" % name, te[1]); rec.put("labels/%s/split/val_y" % name, va[1])
+
+
 def seedcheck(rec, seed):
     """direct statement: after manual_seed(s) the two global generators are in the state np.random.seed(s) / random.seed(s) give"""
     import random as pyrandom
@@ -344,8 +395,12 @@ def catalog_part(rec, pre, seed, k, limit):
 
 def run(seed, k=0, reps=0, catalog=-1):
     rec = Rec()
+    objs = prebuild()
     body(rec, "run1/", seed, k)
+    prebuilt_part(rec, "run1/", seed, objs)
     body(rec, "run2/", seed, k)
+    prebuilt_part(rec, "run2/", seed, objs)
+    labels_part(rec)
     seedcheck(rec, seed)
     for i in range(reps):
         fixed(rec, "fixed/%d/" % i, k)
